@@ -480,7 +480,11 @@ static int gen_insn (Gen *g, const VOp *op, int last)
     in.d[j] = v;
   }
   /* commit */
-  for (j = 0; j < ns; j++) account_operand (g, in.s[j], 0);
+  for (j = 0; j < ns; j++) {
+    account_operand (g, in.s[j], 0);
+    if (!((op->flags & VOP_LOAD) && j == 0) && (ps->vars[in.s[j]].kind == VK_SRC || ps->vars[in.s[j]].kind == VK_DEST))
+      ps->vars[in.s[j]].plain = 1;
+  }
   for (j = 0; j < nd; j++) {
     PVar *pv = &ps->vars[in.d[j]];
     pv->written = 1;
@@ -492,11 +496,11 @@ static int gen_insn (Gen *g, const VOp *op, int last)
     if (starts (op->name, "loadoff")) {
       if (a->noff < 6) a->off_vars[a->noff++] = in.s[1];
       ps->has_special_load = 1;
-    } else if (starts (op->name, "loadup")) { a->up = 1; ps->has_special_load = 1; }
+    } else if (starts (op->name, "loadup")) { a->up = 1; if (starts (op->name, "loadupib")) a->up_interp = 1; ps->has_special_load = 1; }
     else if (starts (op->name, "ldres")) {
       a->res_b = in.s[1]; a->res_c = in.s[2]; a->res_lin = starts (op->name, "ldreslin");
       ps->has_special_load = 1;
-    }
+    } else a->plain = 1;
   }
   if (op_is_float (op)) ps->has_float = 1;
   if (op->flags & VOP_ACC) ps->has_acc = 1;
@@ -536,6 +540,7 @@ static void ps_finalize (Gen *g)
         int s = ps_addvar (ps, VK_SRC, pv->size);
         if (s < 0) { int c2[PS_MAXVARS]; int m = find_vars (ps, VK_SRC, pv->size, 0, c2); s = m ? c2[0] : i; }
         in.s[0] = s;
+        ps->vars[s].plain = 1;
       }
       pv = &ps->vars[i];
       pv->written = 1; pv->wrote_mem = 1;
@@ -566,6 +571,7 @@ static void ps_finalize (Gen *g)
     int s = ps_addvar (ps, VK_SRC, 1), d = ps_addvar (ps, VK_DEST, 1);
     memset (&in, 0, sizeof in);
     in.op = copy_op_for_size (1); in.d[0] = d; in.s[0] = s;
+    ps->vars[s].plain = 1;
     ps->vars[d].written = 1; ps->vars[d].wrote_mem = 1;
     ps->ins[ps->nins++] = in;
   }
@@ -702,6 +708,7 @@ void ps_single (const VOp *op, int form, ProgSpec *ps)
       if (k == 0) {
         if (j == 0 && inplace && kinds[0] == 0) { v = in.d[0]; ps->has_inplace = 1; ps->vars[v].read = 1; }
         else v = ps_addvar (ps, VK_SRC, op->ssz[j] * (((op->flags & VOP_LOAD) && j == 0) ? 1 : mult));
+        if (!((op->flags & VOP_LOAD) && j == 0)) ps->vars[v].plain = 1;
       } else {
         v = ps_addvar (ps, k == 1 ? VK_CONST : VK_PARAM, op->ssz[j]);
         if (k == 2) {
@@ -725,8 +732,9 @@ void ps_single (const VOp *op, int form, ProgSpec *ps)
     PVar *a = &ps->vars[in.s[0]];
     a->read = 1;
     if (starts (op->name, "loadoff")) { a->off_vars[a->noff++] = in.s[1]; ps->has_special_load = 1; }
-    else if (starts (op->name, "loadup")) { a->up = 1; ps->has_special_load = 1; }
+    else if (starts (op->name, "loadup")) { a->up = 1; if (starts (op->name, "loadupib")) a->up_interp = 1; ps->has_special_load = 1; }
     else if (starts (op->name, "ldres")) { a->res_b = in.s[1]; a->res_c = in.s[2]; a->res_lin = starts (op->name, "ldreslin"); ps->has_special_load = 1; }
+    else a->plain = 1;
   }
   if (op_is_float (op)) ps->has_float = 1;
   if (op->flags & VOP_ACC) ps->has_acc = 1;
@@ -991,18 +999,21 @@ static uint64_t scalar_value (const ProgSpec *ps, const RunCfg *rc, int v)
 void ps_entitlement (const ProgSpec *ps, const RunCfg *rc, int v, long *lo, long *hi)
 {
   const PVar *pv = &ps->vars[v];
-  long n = rc->n, l = 0, h = n;
-  if (pv->kind == VK_SRC && !pv->read) { *lo = 0; *hi = n; return; }
+  long n = rc->n, l = 0, h = 0;
+  int k;
+  /* destinations, and arrays nobody reads, are laid out for elements 0..n-1 */
+  if (pv->kind == VK_DEST || pv->plain || (!pv->noff && !pv->up && pv->res_b < 0)) h = n;
   if (n > 0) {
-    int k;
     for (k = 0; k < pv->noff; k++) {
       long off = (long) (int32_t) scalar_value (ps, rc, pv->off_vars[k]);
-      if (off < 0 && off < l) l = off;
-      if (off > 0 && n + off > h) h = n + off;
+      if (off < l) l = off;
+      if (n + off > h) h = n + off;
+      if (off < 0 && !pv->plain && pv->noff == 1 && !pv->up && pv->res_b < 0 && pv->kind == VK_SRC && n + off > 0) h = n + off;
     }
     if (pv->up) {
-      long mx = ((n - 1) & 1) ? (n >> 1) : ((n - 1) >> 1);
-      /* a plain read of 0..n-1 may coexist; keep the larger */
+      /* loadupdb reads i>>1; loadupib additionally (i>>1)+1 for odd i */
+      long mx = (n - 1) >> 1;
+      if (pv->up_interp && ((n - 1) & 1)) mx = ((n - 1) >> 1) + 1;
       if (mx + 1 > h) h = mx + 1;
     }
     if (pv->res_b >= 0) {
@@ -1011,6 +1022,7 @@ void ps_entitlement (const ProgSpec *ps, const RunCfg *rc, int v, long *lo, long
       if (mx + 1 > h) h = mx + 1;
     }
   }
+  if (h < l) h = l;
   *lo = l; *hi = h;
 }
 
